@@ -43,9 +43,13 @@ def frame_matrix(tier):
            ["win", "rank", [col("a")]], ["win", "rank_dense", [col("a")]], ["win", "row_number", []]]
     sorts = [None, [[False, col("id")]], [[False, col("a")]], [[True, col("a")]], [[False, col("a")], [False, col("id")]]]
     progs = []
-    for part in (False, True):
+    for part in (False, True, "window_outside"):
         for srt in sorts:
+            if part == "window_outside" and (srt is None or (tier == "quick" and len(srt) > 1)):
+                continue
             for fr in frames:
+                if part == "window_outside" and fr is None:
+                    continue
                 if fr is not None and fr[1][0] == "range" and srt is not None and len(srt) > 1 and (fr[1][1] not in (None, 0) or fr[1][2] not in (None, 0)):
                     continue        # RANGE with an offset needs exactly one order key (KF-C07-7 covers the compiler's side)
                 for fn in fns:
@@ -60,7 +64,11 @@ def frame_matrix(tier):
                             inner.append({"t": "window", "frame_src": fr[0], "frame": fr[1], "pipe": [d]})
                         main = [{"t": "from", "src": {"k": "table", "name": "t2"}, "alias": None},
                                 {"t": "select", "items": [[None, col("id")], [None, col("k")], [None, col("a")], [None, col("c")]]}]
-                        if part:
+                        if part == "window_outside":
+                            # `window <frame> (group k (sort .. | derive ..))`: the frame reaches into the group
+                            gp = ([{"t": "sort", "keys": srt}] if srt is not None else []) + [d]
+                            main.append({"t": "window", "frame_src": fr[0], "frame": fr[1], "pipe": [{"t": "group", "keys": [col("k")], "pipe": gp}]})
+                        elif part:
                             main.append({"t": "group", "keys": [col("k")], "pipe": inner})
                         else:
                             main.extend(inner)
@@ -82,7 +90,7 @@ def matrix_phase(run, tier, seed):
         run.extend(v)
     run.coverage["frame_matrix"] = {"programs": len(progs), "executions": obs.get("cases", 0), "judged": obs.get("judged", 0), "unspecified": obs.get("unspecified", 0),
                                     "rejected": obs.get("rejected", 0), "engine_unsupported": obs.get("engine_unsupported", 0),
-                                    "cells": "12 functions x (no window, rows/range x 22 bound pairs, rolling 1-3, expanding) x 5 sorts x {whole relation, group k} x {derive, filter}"}
+                                    "cells": "12 functions x (no window, rows/range x 22 bound pairs, rolling 1-3, expanding) x 5 sorts x {whole relation, group k (window ..), window .. (group k ..)} x {derive, filter}"}
     run.coverage["evaluations"] = run.coverage.get("evaluations", 0) + obs.get("cases", 0)
     run.coverage["judged_against_model"] = run.coverage.get("judged_against_model", 0) + obs.get("judged", 0)
     run.coverage["distinct_nontrivial"] = run.coverage.get("distinct_nontrivial", 0) + len(obs.get("nontrivial", []))
